@@ -61,7 +61,7 @@ var optFailForms = []string{
 	"nil.x = %s",                             // member of nil
 	"gfix2(%s)",                              // too few arguments for a Go function
 	"gcall0(%s)",                             // an argument that cannot be converted
-	"one(%s, 2)",                             // too many arguments for a script function
+	"one(%s, 2)",                             // surplus arguments for a script function (not an error: a call that succeeds)
 	"nothing()(%s)",                          // calling what is not a function
 }
 
@@ -122,7 +122,7 @@ func genOptions(t *rapid.T) OptionsCase {
 			fmt.Fprintf(&b, "func rec(k) {\ndefer func() { n += one() }()\nif k == 0 {\n%s\n}\nreturn 1 + rec(k - 1)\n}\nr += [rec(%d)]\n", bottom, c.D)
 		case "rec-fails-at-bottom":
 			c.Fail = ff
-			fmt.Fprintf(&b, "func rec(k) {\nif k == 0 {\nmeet()\n%s\n}\nreturn 1 + rec(k - 1)\n}\ntry {\nn = rec(%d)\n} catch e {\nr += [e.Error(), one()]\n}\n", fmt.Sprintf(ff, "k"), c.D)
+			fmt.Fprintf(&b, "func rec(k) {\nif k == 0 {\nmeet()\n%s\nreturn 0\n}\nreturn 1 + rec(k - 1)\n}\ntry {\nn = rec(%d)\n} catch e {\nr += [e.Error(), one()]\n}\n", fmt.Sprintf(ff, "k"), c.D)
 		default:
 			c.Fail = ff
 			fmt.Fprintf(&b, "func rec(k) {\nif k == 0 {\nmeet()\nreturn 0\n}\nv = 0\ntry {\nv = rec(k - 1)\n%s\n} catch e {\nv += one()\n}\nreturn v\n}\nn = rec(%d)\n", fmt.Sprintf(ff, "k"), c.D)
